@@ -54,6 +54,18 @@ LONG = st.builds(
 )
 
 
+@st.composite
+def boundary_values(draw):
+    """long strings with a metacharacter token placed exactly on / next to a multiple of 4096 (lexer chunk, typical
+    buffer and slice sizes), so that escaping done piecewise or a token cut in two becomes visible"""
+    k = draw(st.sampled_from([1, 1, 1, 2]))
+    back = draw(st.integers(-3, 6))
+    tok = draw(st.sampled_from(["//", "//", ":", ";", "\\", "\\:", ";;", "//x", "/", "a:b", "é", "\n"]))
+    fill = draw(st.sampled_from(["x", "x", "0", "é"]))
+    tail = draw(st.sampled_from(["", "y", "tail\n", ":z"]))
+    return fill * max(0, k * 4096 - back) + tok + tail
+
+
 def values(allow_none=True, long_ok=True):
     opts = [
         SHORT,
@@ -63,7 +75,7 @@ def values(allow_none=True, long_ok=True):
         st.sampled_from(["0.000=120.000", "a:b", "120:240", "*", "TIME=1.5:LEN=2:MODS=*2 x", "file.ogg", "0000\n0000\n0000\n0000"]),
     ]
     if long_ok:
-        opts.append(st.integers(0, 24).flatmap(lambda i: LONG if i == 0 else SHORT))
+        opts.append(st.integers(0, 24).flatmap(lambda i: LONG if i == 0 else boundary_values() if i in (1, 2) else SHORT))
     if allow_none:
         opts.append(st.none())
     return st.one_of(*opts).map(msdgap.safe_text)
@@ -73,7 +85,10 @@ def values(allow_none=True, long_ok=True):
 def pairs(draw, fmt, chart=False):
     k = draw(keys(fmt, chart=chart))
     v = draw(values())
-    if draw(st.integers(0, 9)) == 0:
+    sel = draw(st.integers(0, 19))
+    if sel == 1:
+        v = msdgap.safe_text(draw(boundary_values()))
+    if sel in (0, 2):
         k = draw(st.sampled_from(msdgap.MULTI))
         v = ":".join(draw(st.lists(values(allow_none=False, long_ok=False), min_size=1, max_size=4)))
         v = msdgap.safe_text(v)
@@ -183,7 +198,13 @@ def sim_ops(draw, fmt):
                 v = msdgap.safe_start(v)
             return ["cset", draw(idx), fi, v, draw(st.sampled_from(["attr", "key"]))]
         if kind == "cextra":
-            return ["cextra", draw(idx), draw(st.one_of(st.none(), st.just([]), st.lists(values(allow_none=False, long_ok=False).map(msdgap.safe_start), min_size=1, max_size=3)))]
+            how = draw(st.integers(0, 3))
+            ev = values(allow_none=False, long_ok=False).map(msdgap.safe_start)
+            if how == 0:
+                return ["cextra_append", draw(idx), draw(ev)]
+            if how == 1:
+                return ["cextra_setitem", draw(idx), draw(st.integers(0, 3)), draw(ev)] if draw(st.booleans()) else ["cextra_pop", draw(idx)]
+            return ["cextra", draw(idx), draw(st.one_of(st.none(), st.just([]), st.lists(ev, min_size=1, max_size=3)))]
     else:
         if kind == "cset":
             if draw(st.integers(0, 3)) == 0:
